@@ -474,7 +474,7 @@ def run(repo, R):
         f = repo.func(w)
         R.note_function(f.qualname)
         check_wrapper_dispatch(repo, f, R, "DISPATCH")
-    R.floor("DIRECT", R.rules["DIRECT"][0], 7, "closed-form obligations of the direct back-end")
+    R.floor("DIRECT", R.rules["DIRECT"][0], 4, "closed-form obligations of the direct back-end")
     R.extra["direct_order_classes"] = {k: list(v) for k, v in masks.items()}
     R.assumptions += ["elementwise abstraction of numpy (broadcast adapters dropped); `if mask.any()` guards analysed as taken (a masked store "
                       "with an empty mask is a no-op) - the component array is a full shell",
